@@ -244,7 +244,7 @@ func poolUse(p *Program, eff *Effects, fn *ssa.Function, get *ssa.Call) []Findin
 	var puts []ssa.Instruction
 	type use struct {
 		in    ssa.Instruction
-		kind  string // "def", "read", "put", "escape"
+		kind  string            // "def", "read", "put", "escape"
 		entry []*ssa.BasicBlock // blocks through which the pooled value reached this use via phis (nil: directly)
 	}
 	var uses []use
